@@ -11,6 +11,7 @@ import FractopoModel.Spec.Defects
 import FractopoModel.Model.Grid
 import FractopoModel.Model.Cli
 import FractopoModel.Model.Snap
+import FractopoModel.Model.SnapLoop
 /-!
 # Model driver: runs the hand-written models and specs (never the regenerated
 definitions, so that it builds whatever the state of /repo) behind a line protocol.
@@ -175,7 +176,9 @@ def arr (a : Args) : Option String := do
       let ending := (here.find? fun (_, e) => e.role == .endAbut).map (·.1)
       let cls := if here.any (fun (_, e) => e.role == .onCross) then "X" else "Y"
       s!"{showPt p}:{cls}:{showNats thr}:{match ending with | some i => toString i | none => "-"}")
-    some s!"valid=1 wellformed={showBool wf} nodes={nodeStr} branches={brStr} pieces={showLines r.pieces} source={showNats r.source} xy={xyStr}"
+    -- hypothesis of C06_quiet_pass_identity / C01_snap_stage_identity on the clipped pieces
+    let quiet := SnapL.quietMap .asc t (t * 20) r.pieces && SnapL.quietMap .desc t (t * 20) r.pieces
+    some s!"valid=1 quiet={showBool quiet} wellformed={showBool wf} nodes={nodeStr} branches={brStr} pieces={showLines r.pieces} source={showNats r.source} xy={xyStr}"
 
 /-- `clip areas= traces=`: exact clip pieces per trace -/
 def clip (a : Args) : Option String := do
@@ -259,6 +262,47 @@ def insertpt (a : Args) : Option String := do
   let v := l.getD (j + 1) default
   let crisp := uniq && Pt.dist2 p u != Pt.dist2 p v && Pt.dist2 p u != t * t && Pt.dist2 p v != t * t
   some s!"line={showLine (Snap.insertGeo l p t)} crisp={showBool crisp}"
+
+
+def showPass (r : Except String (List Polyline × Bool)) : String :=
+  match r with
+  | .error e => s!"err={e}"
+  | .ok (tr, ch) => s!"traces={showLines tr} changed={showBool ch}"
+
+/-- `snappass t= areas= traces= [margin=]`: one pass of the snapping model (`snap_traces`); `crisp` = the result
+is the same with every threshold scaled by 1 ± 1e-6 -/
+def snappass (a : Args) : Option String := do
+  let t ← (a.get? "t") >>= parseRat?
+  let areas ← (a.get? "areas") >>= parseArea?
+  let traces ← (a.get? "traces") >>= parseLines?
+  let mk : Rat := match (a.get? "margin") >>= parseRat? with | some m => m | none => 20
+  let polys := allPolys areas
+  let k1 : Rat := 1000001 / 1000000
+  let k0 : Rat := 999999 / 1000000
+  let r := showPass (SnapL.snapPass .asc t (t * mk) polys traces)
+  let crisp := r == showPass (SnapL.snapPass .asc (t * k1) (t * k1 * mk) polys traces) && r == showPass (SnapL.snapPass .asc (t * k0) (t * k0 * mk) polys traces)
+  let ordfree := r == showPass (SnapL.snapPass .desc t (t * mk) polys traces)
+  some s!"{r} crisp={showBool crisp} ordfree={showBool ordfree}"
+
+def showLoop (r : Except String (List Polyline × Nat)) : String :=
+  match r with
+  | .error e => s!"err={e}"
+  | .ok (tr, n) => s!"traces={showLines tr} loops={n}"
+
+/-- `snaploop t= areas= traces= allowed=`: the whole repeat-until-stable snapping stage -/
+def snaploop (a : Args) : Option String := do
+  let t ← (a.get? "t") >>= parseRat?
+  let areas ← (a.get? "areas") >>= parseArea?
+  let traces ← (a.get? "traces") >>= parseLines?
+  let allowed ← (a.get? "allowed") >>= parseNat?
+  let polys := allPolys areas
+  let k1 : Rat := 1000001 / 1000000
+  let k0 : Rat := 999999 / 1000000
+  let r := showLoop (SnapL.snapLoop .asc t (t * 20) polys allowed traces)
+  let crisp := r == showLoop (SnapL.snapLoop .asc (t * k1) (t * k1 * 20) polys allowed traces) && r == showLoop (SnapL.snapLoop .asc (t * k0) (t * k0 * 20) polys allowed traces)
+  let ordfree := r == showLoop (SnapL.snapLoop .desc t (t * 20) polys allowed traces)
+  let quiet := SnapL.quietMap .asc t (t * 20) traces
+  some s!"{r} crisp={showBool crisp} ordfree={showBool ordfree} quiet={showBool quiet}"
 
 /-- `feature t= m= a= end=x,y target=<line> areas=<area>`: exact squared distances of a trace end to a
 target trace / to the area boundary and the documented windows (hand-written spec) -/
@@ -382,6 +426,8 @@ def dispatch (line : String) : String :=
       | "defects" => Cmd.defects a
       | "cover" => Cmd.cover a
       | "insertpt" => Cmd.insertpt a
+      | "snappass" => Cmd.snappass a
+      | "snaploop" => Cmd.snaploop a
       | "feature" => Cmd.feature a
       | "tuplerepr" => Cmd.tuplerepr a
       | "grid" => Cmd.grid a
